@@ -258,6 +258,20 @@ let matcher_line line =
     Buffer.contents out
   | _ -> "bad"
 
+(* ---- frame-level compressor model: frame <level 0|1> <slice> <window> <ck-hex|-> <bodies ';'|-> <data-hex> [script ','] ---- *)
+let frame_line line =
+  match List.filter (fun x -> x <> "") (split_on ' ' line) with
+  | lv :: slice :: wsize :: ck :: bodies :: data :: rest ->
+    let level = if lv = "0" then M.LUncompressed else M.LFastest in
+    let ckv = if ck = "-" then None else Some (unhex ck) in
+    let bl = if bodies = "-" then [] else List.map unhex (split_on ';' bodies) in
+    let script = match rest with [] -> [] | s :: _ -> List.map (fun x -> nat_of_int (int_of_string x)) (split_on ',' s) in
+    (match M.compress_frame_oracle level (nat_of_int (int_of_string slice)) (z_of_string wsize) ckv bl (unhex data) script with
+     | M.ROk out -> "ok " ^ hex out
+     | M.RErr _ -> "err"
+     | M.RPanic _ -> "panic")
+  | _ -> "bad"
+
 let () =
   let cmd = if Array.length Sys.argv > 1 then Sys.argv.(1) else "" in
   let f = match cmd with
@@ -265,6 +279,7 @@ let () =
     | "fse" -> fse_line
     | "huf" -> huf_line
     | "matcher" -> matcher_line
+    | "frame" -> frame_line
     | _ -> prerr_endline "usage: driver <prog|fse|huf> < cases"; exit 2 in
   (try
     while true do
